@@ -34,6 +34,7 @@ type Config struct {
 	VerifierCache bool // verifier chain cache may be enabled (as wired in the control service)
 	Fetching      bool // some ASes start without the other ASes' chains (real FetchingProvider path)
 	EPIC          bool
+	Rich          bool // denser topologies (parallel links, more parents) and small best-set sizes: many candidates per selection
 	MinSteps      int
 	MaxSteps      int
 
@@ -58,7 +59,7 @@ func (w *World) advance(d time.Duration) {
 
 func (w *World) tick() {
 	r := w.r
-	steps := []time.Duration{time.Second, 10 * time.Second, time.Minute, 5 * time.Minute}
+	steps := []time.Duration{time.Second, 7 * time.Second, 40 * time.Second, 3 * time.Minute}
 	d := steps[r.Choice("tick", len(steps))]
 	if time.Since(w.epochStart)+d >= epochBudget {
 		if w.cfg.ClockJumps {
@@ -75,6 +76,7 @@ func (w *World) jump() {
 	d := jumps[r.Choice("jump", len(jumps))] + time.Duration(r.Choice("jump.residue.s", 600))*time.Second
 	w.advance(d)
 	w.epochStart = time.Now()
+	w.epochNo++
 	r.Fault("clock.jump")
 	// what the periodic storage cleaner of the control service would have done meanwhile
 	for _, a := range w.ASes {
@@ -124,8 +126,9 @@ func (w *World) handle(to *AS, inIf uint16, from addr.IA, raw []byte, label stri
 		real := verr == nil
 		switch {
 		case real && !gt.ok:
-			r.Fail("c24-accepted-invalid", "verify:accepted:"+reasonClass(gt.why), "%s verified %s (%s) although: %s", to.IA, descPB(&pb), label, gt.why)
-			return
+			if w.viol("c24-accepted-invalid", "verify:accepted:"+reasonClass(gt.why)+w.cachedClass(to, gt), "%s verified %s (%s) although: %s", to.IA, descPB(&pb), label, gt.why) {
+				return
+			}
 		case !real && gt.ok && !gt.dontcare:
 			r.Fail("c24-rejected-valid", "verify:rejected", "%s rejected %s (%s) although every entry is signed by a certified key covering its lifetime: %s",
 				to.IA, descPB(&pb), label, errClass(verr))
@@ -133,6 +136,7 @@ func (w *World) handle(to *AS, inIf uint16, from addr.IA, raw []byte, label stri
 		}
 		r.Covered(fmt.Sprintf("verify:%v:n%d:%s", real, min(gt.entries, 6), labelClass(label)))
 	}
+	cachedBefore := w.cachedClass(to, gt)
 	before := w.rows(to)
 	peer := &snet.UDPAddr{IA: from}
 	herr := to.Handler.HandleBeacon(w.ctx, beacon.Beacon{Segment: ps, InIfID: inIf}, peer)
@@ -174,12 +178,15 @@ func (w *World) handle(to *AS, inIf uint16, from addr.IA, raw []byte, label stri
 	}
 	if storedNow {
 		w.cnt.stored++
+		w.storedAt[to.Idx]++
 	}
 	loop := asRepeated(hops)
 	r.Covered(fmt.Sprintf("handle:%s:link=%v:last=%v:sig=%v:pol=%v:stored=%v", lt, linkOK, lastOK, gt.ok, accUsage != 0, storedNow))
+	cachedCls := cachedBefore
 	if w.cfg.JudgeC24 && storedNow && !gt.ok {
-		r.Fail("c24-stored-unverifiable", "store:unverifiable:"+reasonClass(gt.why), "%s stored %s (%s) although: %s", to.IA, descPB(&pb), label, gt.why)
-		return
+		if w.viol("c24-stored-unverifiable", "store:unverifiable:"+reasonClass(gt.why)+cachedCls, "%s stored %s (%s) although: %s", to.IA, descPB(&pb), label, gt.why) {
+			return
+		}
 	}
 	if w.cfg.JudgeC25 {
 		if storedNow && !cond && !loop {
@@ -192,9 +199,14 @@ func (w *World) handle(to *AS, inIf uint16, from addr.IA, raw []byte, label stri
 			case !gt.ok:
 				why = "signatures do not verify: " + gt.why
 			}
-			r.Fail("c25-stored-invalid", "store:invalid:"+failClass(linkOK, lastOK, gt.ok), "%s stored beacon %s received on #%d (%s) although %s", to.IA,
-				descPB(&pb), inIf, label, why)
-			return
+			sig := "store:invalid:" + failClass(linkOK, lastOK, gt.ok)
+			if linkOK && lastOK && !gt.ok {
+				sig += ":" + reasonClass(gt.why) + cachedCls
+			}
+			if w.viol("c25-stored-invalid", sig, "%s stored beacon %s received on #%d (%s) although %s", to.IA, descPB(&pb), inIf, label, why) {
+				return
+			}
+			cond = true // a listed known finding: the beacon is in the store; the later checks go on from there
 		}
 		if storedNow && !loop && after[id].usage != accUsage {
 			r.Fail("c25-usage", "store:usage", "%s stored %s with usage [%s], accepting policies are [%s]", to.IA, descPB(&pb),
@@ -271,6 +283,19 @@ func failClass(linkOK, lastOK, sigOK bool) string {
 		return "signature"
 	}
 	return "policy"
+}
+
+// cachedClass tells whether the entry the reference verdict objects to belongs to an AS whose chain
+// the receiver's verifier cache may hold (cache enabled, a signature of that AS verified there in
+// this clock epoch). Part of violation signatures only.
+func (w *World) cachedClass(to *AS, gt verdict) string {
+	if gt.ok || !to.cacheOn || gt.badIA == 0 {
+		return ""
+	}
+	if e, ok := w.warm[to.Idx][gt.badIA]; ok && e == w.epochNo {
+		return ":cached"
+	}
+	return ""
 }
 
 // checkDB: no stored beacon exceeds a policy's maximum length or contains a blocked AS or ISD for
@@ -404,7 +429,7 @@ func (w *World) originate() bool {
 	return true
 }
 
-func (w *World) propagate() bool {
+func (w *World) propagate(burst bool) bool {
 	r := w.r
 	var cands []*AS
 	for _, a := range w.ASes {
@@ -419,13 +444,42 @@ func (w *World) propagate() bool {
 	if len(cands) == 0 {
 		return false
 	}
+	// prefer control services that hold beacons (an empty store has nothing to propagate)
+	var holding []*AS
+	for _, a := range cands {
+		if w.storedAt[a.Idx] > 0 {
+			holding = append(holding, a)
+		}
+	}
+	if len(holding) > 0 && !r.Chance("prop.any", 1, 8) {
+		cands = holding
+	}
 	a := cands[r.Choice("prop.as", len(cands))]
 	t := topology.Child
 	if a.Core {
 		t = topology.Core
 	}
 	ids := a.ifsOfType(t)
-	id := ids[r.Choice("prop.if", len(ids))]
+	if burst {
+		// one propagation round of this control service: every interface, then the network drains
+		rot := r.Choice("burst.rot", len(ids))
+		for k := range ids {
+			w.propagateOn(a, ids[(k+rot)%len(ids)], 2)
+			if r.Failed() {
+				return true
+			}
+		}
+		for i := 0; i < 8 && !r.Failed() && len(w.net.queue) > 0; i++ {
+			w.deliverNext()
+		}
+		return true
+	}
+	w.propagateOn(a, ids[r.Choice("prop.if", len(ids))], 4)
+	return true
+}
+
+func (w *World) propagateOn(a *AS, id uint16, limit int) bool {
+	r := w.r
 	bs, err := a.Store.BeaconsToPropagate(w.ctx)
 	if err != nil {
 		panic(core.InfraError{Msg: "BeaconsToPropagate: " + err.Error()})
@@ -440,8 +494,8 @@ func (w *World) propagate() bool {
 	// the order in which the selected beacons are served is a scheduling decision
 	rot := r.Choice("prop.rot", len(bs))
 	bs = append(append([]beacon.Beacon(nil), bs[rot:]...), bs[:rot]...)
-	if len(bs) > 4 {
-		bs = bs[:4]
+	if len(bs) > limit {
+		bs = bs[:limit]
 	}
 	if len(w.net.queue) > 40 {
 		bs = bs[:1]
@@ -539,18 +593,20 @@ func runWith(cfg Config) core.RunFunc {
 			w := newWorld(r, &c)
 			defer w.close()
 			w.validAt = map[int]map[[32]byte]bool{}
-			acts := []string{"deliver", "deliver", "deliver", "originate", "propagate", "propagate", "deliver", "tick", "register"}
+			w.storedAt = map[int]int{}
+			acts := []string{"deliver", "deliver", "deliver", "originate", "propagate", "propagate", "deliver", "burst", "tick",
+				"register", "deliver", "originate", "propagate", "burst", "deliver", "propagate"}
 			if cfg.ClockJumps {
 				acts = append(acts, "jump")
 			}
 			if cfg.Faults {
-				acts = append(acts, "replay")
+				acts = append(acts, "replay", "replay")
 			}
 			if cfg.FaultyCaller {
-				acts = append(acts, "faultycall", "faultycall")
+				acts = append(acts, "faultycall", "faultycall", "faultycall")
 			}
 			if cfg.Tamper {
-				acts = append(acts, "forge")
+				acts = append(acts, "forge", "forge")
 			}
 			steps := cfg.MinSteps + r.Choice("steps", cfg.MaxSteps-cfg.MinSteps+1)
 			for s := 0; s < steps && !r.Failed(); s++ {
@@ -565,7 +621,9 @@ func runWith(cfg Config) core.RunFunc {
 				case "originate":
 					w.originate()
 				case "propagate":
-					w.propagate()
+					w.propagate(false)
+				case "burst":
+					w.propagate(true)
 				case "tick":
 					w.tick()
 				case "jump":
